@@ -1118,6 +1118,10 @@ func runC15(c *Ctx) {
 		c.hist["blind:short-inverse-found"] = len(shortInv)
 	}
 	scalarInverses(c, r, L)
+	// blinding is ScalarMult(hash-derived scalar, public key): the recoding and the variable-base loop on the digit patterns no
+	// hash-derived scalar will show (round 7/8: a recoding that loses a carry next to a 0x7777… word)
+	c14Digits(c, NewRng(c.Seed, "c15-digits"))
+	c14ScalarMult(c, NewRng(c.Seed, "c15-scalarmult"))
 	// small-order public keys and their non-canonical encodings, blinded once and twice (two orders), and unblinded: the blinded
 	// key is pk × scalar also there (round 7: fast paths in the point formulas that mistake a torsion point for the identity)
 	{
